@@ -649,12 +649,19 @@ impl Gen<'_> {
                 // operand with an observable side effect, to see short-circuiting
                 let r = if self.rng.chance(1, 3) {
                     self.try_call(&Ty::Bool, depth).unwrap_or_else(|| self.bool_expr(depth + 1))
+                } else if self.rng.chance(1, 8) {
+                    self.nullish_expr(depth + 1)
                 } else {
                     self.bool_expr(depth + 1)
                 };
-                bin(op, self.bool_expr(depth + 1), r)
+                // null counts as false on either side and short-circuits `and` on the left
+                let l = if self.rng.chance(1, 4) { self.nullish_expr(depth + 1) } else { self.bool_expr(depth + 1) };
+                bin(op, l, r)
             }
-            3 => Expr::Un(UnOp::Not, Box::new(self.bool_expr(depth + 1))),
+            3 => {
+                let x = if self.rng.chance(1, 6) { self.nullish_expr(depth + 1) } else { self.bool_expr(depth + 1) };
+                Expr::Un(UnOp::Not, Box::new(x))
+            }
             4 => {
                 let t = self.random_ty(2);
                 let l = self.expr(&t, depth + 1);
@@ -665,6 +672,19 @@ impl Gen<'_> {
                 bin(op, self.bool_expr(depth + 1), self.bool_expr(depth + 1))
             }
             _ => self.try_call(&Ty::Bool, depth).unwrap_or(Expr::Bool(true)),
+        }
+    }
+
+    /// An expression whose value is null: the literal, a variable that holds null, or a call of a
+    /// function that returns nothing (which has its own observable effects).
+    fn nullish_expr(&mut self, depth: usize) -> Expr {
+        match self.rng.weighted(&[2, 2, 3]) {
+            0 => Expr::Null,
+            1 => {
+                let vars = self.vars_of(&Ty::Null);
+                if vars.is_empty() { Expr::Null } else { var(&self.rng.pick(&vars).name.clone()) }
+            }
+            _ => self.try_call(&Ty::Null, depth).unwrap_or(Expr::Null),
         }
     }
 
@@ -1092,6 +1112,116 @@ impl Gen<'_> {
         true
     }
 
+    fn idiom_lit(&mut self, is_num: bool) -> Expr {
+        if is_num { self.num_lit() } else { self.str_lit() }
+    }
+
+    /// A variable is stored in one basic block, then a function that assigns it only behind a
+    /// condition (directly or through a second function) is called, then the variable is read: the
+    /// earlier store is observed whenever the condition is false. Variants put the store in an
+    /// `if`, a loop or straight-line code, let the callee read the variable first or write it
+    /// unconditionally, and read it directly, by interpolation or from a nested block.
+    fn may_write_idiom(&mut self, out: &mut Vec<Stmt>) {
+        self.budget -= 5;
+        let is_num = self.rng.chance(1, 2);
+        let ty = if is_num { Ty::Num } else { Ty::Str };
+        let v = self.fresh_name(if is_num { "mw" } else { "ms" });
+        let init = self.idiom_lit(is_num);
+        out.push(Stmt::Make { name: v.clone(), init: Some(init), decl: u32::MAX });
+        self.declare(VarInfo { name: v.clone(), ty, frozen: false, fixed: false, lens: vec![] });
+
+        // the writer(s)
+        let w = self.fresh_name("w");
+        let fl = self.fresh_name("fl");
+        let written = if self.rng.chance(1, 4) {
+            bin(BinOp::Add, var(&v), self.idiom_lit(is_num))
+        } else {
+            self.idiom_lit(is_num)
+        };
+        let write = Stmt::Assign { name: v.clone(), value: written, decl: u32::MAX };
+        let guarded = if self.rng.chance(1, 6) {
+            write
+        } else {
+            let cond = if self.rng.chance(1, 4) { Expr::Un(UnOp::Not, Box::new(var(&fl))) } else { var(&fl) };
+            Stmt::If { cond, then_b: Block { stmts: vec![write] }, else_b: None }
+        };
+        let returns = self.rng.chance(1, 3);
+        let mut defs: Vec<Stmt> = Vec::new();
+        let mut body = vec![guarded];
+        if self.rng.chance(1, 3) {
+            // the write sits one call further down
+            let w2 = self.fresh_name("w");
+            let fl2 = self.fresh_name("fl");
+            let inner = std::mem::replace(&mut body, vec![Stmt::Expr(call(&w2, vec![var(&fl)]))]);
+            let inner = rename_var_in(inner, &fl, &fl2);
+            defs.push(Stmt::FuncDef(Box::new(FuncDef { name: w2, params: vec![fl2], param_decls: vec![], body: Block { stmts: inner }, id: u32::MAX })));
+        }
+        if returns {
+            body.push(Stmt::Return(Some(self.num_lit())));
+        }
+        defs.push(Stmt::FuncDef(Box::new(FuncDef { name: w.clone(), params: vec![fl], param_decls: vec![], body: Block { stmts: body }, id: u32::MAX })));
+        let defs_first = self.rng.chance(2, 3);
+        if defs_first {
+            out.append(&mut defs);
+        }
+
+        // the store, in a block of its own more often than not
+        let stored = self.idiom_lit(is_num);
+        let store = Stmt::Assign { name: v.clone(), value: stored, decl: u32::MAX };
+        match self.rng.weighted(&[5, 2, 2]) {
+            0 => {
+                let cond = if self.rng.chance(1, 2) { Expr::Bool(self.rng.chance(3, 4)) } else { self.bool_expr(2) };
+                out.push(Stmt::If { cond, then_b: Block { stmts: vec![store] }, else_b: None });
+            }
+            1 => {
+                let i = self.fresh_name("i");
+                out.push(Stmt::Make { name: i.clone(), init: Some(num(0)), decl: u32::MAX });
+                self.declare(VarInfo { name: i.clone(), ty: Ty::Num, frozen: true, fixed: false, lens: vec![] });
+                let inc = Stmt::Assign { name: i.clone(), value: bin(BinOp::Add, var(&i), num(1)), decl: u32::MAX };
+                out.push(Stmt::Loop { cond: bin(BinOp::Lt, var(&i), num(self.rng.range(0, 2))), body: Block { stmts: vec![inc, store] } });
+            }
+            _ => out.push(store),
+        }
+
+        // the call, in the block that follows
+        let arg = match self.rng.weighted(&[4, 2, 1]) {
+            0 => Expr::Bool(false),
+            1 => Expr::Bool(true),
+            _ => self.bool_expr(2),
+        };
+        let c = call(&w, vec![arg]);
+        let wrapped = self.rng.chance(1, 5);
+        let call_stmt = if returns && self.rng.chance(1, 2) {
+            let u = self.fresh_name("u");
+            let st = Stmt::Make { name: u.clone(), init: Some(c), decl: u32::MAX };
+            if !wrapped {
+                self.declare(VarInfo { name: u, ty: Ty::Num, frozen: false, fixed: false, lens: vec![] });
+            }
+            st
+        } else {
+            Stmt::Expr(c)
+        };
+        if wrapped {
+            out.push(Stmt::If { cond: Expr::Bool(true), then_b: Block { stmts: vec![call_stmt] }, else_b: None });
+        } else {
+            out.push(call_stmt);
+        }
+
+        // the read
+        match self.rng.weighted(&[5, 2, 2, 1]) {
+            0 => out.push(shout(var(&v))),
+            1 => out.push(shout(Expr::Str(StrLit::Template {
+                segs: vec![Seg::Text("v=".to_string()), Seg::Var { name: v.clone(), pad_l: 0, pad_r: 0, decl: u32::MAX }],
+                quote: '"',
+            }))),
+            2 => out.push(Stmt::If { cond: Expr::Bool(true), then_b: Block { stmts: vec![shout(var(&v))] }, else_b: None }),
+            _ => {}
+        }
+        if !defs_first {
+            out.append(&mut defs);
+        }
+    }
+
     /// Adds one statement; returns true if it ends the block (return / comot / next).
     fn statement(&mut self, out: &mut Vec<Stmt>, top: bool) -> bool {
         self.budget -= 1;
@@ -1099,6 +1229,10 @@ impl Gen<'_> {
         let in_loop = self.loop_depth > 0;
         let deep = self.depth >= 3;
         let p = self.profile;
+        if self.rng.chance(1, if p == Profile::Dead { 12 } else { 60 }) && self.budget > 6 {
+            self.may_write_idiom(out);
+            return false;
+        }
         if p == Profile::Dead && self.rng.chance(1, 14) {
             self.trap_statement(out);
             return false;
@@ -1540,4 +1674,25 @@ fn mentions_expr(e: &Expr, out: &mut Vec<String>) {
         }
         _ => {}
     }
+}
+
+/// Renames variable `from` to `to` in statements built by hand (conditions and call arguments only).
+fn rename_var_in(stmts: Vec<Stmt>, from: &str, to: &str) -> Vec<Stmt> {
+    fn ex(e: Expr, from: &str, to: &str) -> Expr {
+        match e {
+            Expr::Var { name, decl } if name == from => Expr::Var { name: to.to_string(), decl },
+            Expr::Un(op, x) => Expr::Un(op, Box::new(ex(*x, from, to))),
+            Expr::Bin(op, l, r) => Expr::Bin(op, Box::new(ex(*l, from, to)), Box::new(ex(*r, from, to))),
+            Expr::Call { name, args, func } => Expr::Call { name, args: args.into_iter().map(|a| ex(a, from, to)).collect(), func },
+            other => other,
+        }
+    }
+    stmts
+        .into_iter()
+        .map(|s| match s {
+            Stmt::If { cond, then_b, else_b } => Stmt::If { cond: ex(cond, from, to), then_b, else_b },
+            Stmt::Expr(e) => Stmt::Expr(ex(e, from, to)),
+            other => other,
+        })
+        .collect()
 }
